@@ -392,7 +392,13 @@ class System:
         for ev in self.prefix + tuple(hist):
             got = apply_event(w, ev)
             if is_edit(ev):
+                snapshot = dict(w.T)
                 want = ref_apply(w.T, ev)
+                if want == "ok" and got != "ok":
+                    # the edit was refused by the real registry (reported below as an edit-outcome violation): the model
+                    # follows reality from here on, so that one defect is not reported again through every later probe
+                    w.T.clear()
+                    w.T.update(snapshot)
                 w.edit_results.append((ev, want, got))
             w.log.append(got.split(":")[0])
         return w
